@@ -20,8 +20,9 @@ PROPERTY = 'C09'
 LEVEL = 'model_checking'
 # the sim-* sources act from WITHIN the simulator task (while a combinational block is being evaluated):
 # a control event sent by a CBlock's on_output, a handler error caught by the CBlock function that caused it
-FATAL = ['handler', 'calc', 'task', 'abort', 'ctrl-abort', 'sim-ctrl-abort', 'sim-caught']
-CANCEL = ['shutdown', 'ctrl-shutdown', 'sim-ctrl-shutdown']
+FATAL = ['handler', 'calc', 'task', 'abort', 'ctrl-abort', 'sim-ctrl-abort', 'sim-caught', 'task-returns', 'task-handler', 'nested-handler']
+CANCEL = ['shutdown', 'ctrl-shutdown', 'sim-ctrl-shutdown', 'cancel']      # 'cancel' = a plain cancel() of the simulation task
+TASK_KINDS = ('task', 'task-returns', 'task-handler')
 HARMLESS = ['badparam', 'unknown']
 SUPPORT = ['support-raises', 'support-returns']      # only meaningful under edzed.run()
 KINDS = FATAL + CANCEL + HARMLESS
@@ -31,7 +32,7 @@ OUTSIDE = ["more than 3 sources", "errors inside clean-up routines racing with t
            "same-instant orders other than heapq's (at a tie every tied source is accepted)"]
 STUBS = ["virtual-time loop with symbolic clock"]
 ASSUMPTIONS = ["a handler error is reported as EdzedCircuitError whose __cause__ is the original exception"]
-EXPECT_LABELS = {'all': ['terminates', 'first-delivered-wins', 'first-error-reported', 'error-attr', 'shutdown-reraises', 'cancel-is-normal', 'not-ready-after',
+EXPECT_LABELS = {'all': ['stops-at-first', 'terminates', 'first-delivered-wins', 'first-error-reported', 'error-attr', 'shutdown-reraises', 'cancel-is-normal', 'not-ready-after',
                          'harmless-dont-stop', 'run-result', 'abort-before-start', 'nonfatal-init']}
 EXPECT_NOTES = {'all': ['support-task-ends', 'tie', 'fatal-first', 'cancel-first', 'only-harmless', 'caught-handler-error-aborts']}
 FLOORS = {'quick': {'paths': 300, 'checks': 1500}, 'thorough': {'paths': 3000, 'checks': 15000}}
@@ -53,8 +54,8 @@ def build(env, kinds, times, fired, caught=None):
             return 'ok'
 
     class MT(edzed.AddonMainTask, edzed.SBlock):
-        def __init__(self, *a, t, marker, **k):
-            self._t, self._marker = t, marker
+        def __init__(self, *a, t, marker, how='task', **k):
+            self._t, self._marker, self._how = t, marker, how
             super().__init__(*a, **k)
 
         def init_regular(self):
@@ -62,10 +63,24 @@ def build(env, kinds, times, fired, caught=None):
 
         async def _maintask(self):
             await asyncio.sleep(self._t)
+            if self._how == 'task-handler':
+                # a handler error inside a monitored block task: the handler's abort() comes first,
+                # the task monitor's abort() of the same error is the later one
+                self.circuit.findblock('pb2').event('x', value=1, fail=self._marker)
+                return
             fired.append(self._marker)
+            if self._how == 'task-returns':
+                return              # a service task that ends is an error ('Unexpected task termination')
             raise KeyError(f"marker-{self._marker}")
 
-    pb = PB('pb')
+    def nested_filter(d):
+        v = d['value']
+        if isinstance(v, tuple) and len(v) == 2 and v[0] == 'nested':
+            return {'value': 1, 'fail': v[1]}
+        return False
+    # pb's handler -> on_output event -> pb3's handler raises: pb3's error is the reported one
+    pb = PB('pb', on_output=edzed.Event('pb3', 'x', efilter=nested_filter))
+    PB('pb3')
 
     def fb_func(x):
         if isinstance(x, tuple) and x[0] == 'boom':
@@ -100,12 +115,12 @@ def build(env, kinds, times, fired, caught=None):
         return 0
     edzed.FuncBlock('fd', func=fd_func).connect(pb)
     for i, k in enumerate(kinds):
-        if k == 'task':
-            MT(f'mt{i}', t=times[i], marker=i, stop_timeout=1.0)
+        if k in TASK_KINDS:
+            MT(f'mt_marker-{i}', t=times[i], marker=i, how=k, stop_timeout=1.0)
     return circ, pb
 
 
-async def fire(circ, pb, kind, i, t, caught, fired, yields):
+async def fire(circ, pb, kind, i, t, caught, fired, yields, ctx=None):
     await asyncio.sleep(t)
     for _ in range(yields):
         await asyncio.sleep(0)      # iteration-level offset within the same virtual instant
@@ -117,6 +132,15 @@ async def fire(circ, pb, kind, i, t, caught, fired, yields):
                 caught.append(i)          # the caller catches it: the simulation must stop anyway
         elif kind == 'calc':
             pb.event('x', value=('boom', i))
+        elif kind == 'cancel':
+            # NOT recorded in 'fired': Task.cancel() only requests the cancellation, the simulator receives the
+            # CancelledError when it is next scheduled; sources firing in between are delivered earlier
+            ctx['simtask'].cancel()
+        elif kind == 'nested-handler':
+            try:
+                pb.event('x', value=('nested', i))
+            except Exception:
+                caught.append(i)
         elif kind == 'sim-ctrl-abort':
             pb.event('x', value=('sim-abort', i))
         elif kind == 'sim-ctrl-shutdown':
@@ -161,7 +185,7 @@ async def fire(circ, pb, kind, i, t, caught, fired, yields):
 
 
 def marker_of(err):
-    txt = repr(err) + repr(getattr(err, '__cause__', None)) + repr(getattr(err, 'args', ''))
+    txt = repr(err) + repr(getattr(err, '__cause__', None)) + repr(getattr(err, 'args', '')) + repr(getattr(err, '__notes__', ''))
     out = set()
     for part in txt.split('marker-')[1:]:
         d = ''
@@ -186,7 +210,9 @@ def scen_errors(env, kinds, use_run):
 
     async def main():
         loop = asyncio.get_running_loop()
-        fires = [fire(circ, pb, k, i, times[i], caught, fired, yields[i]) for i, k in enumerate(kinds) if k != 'task']
+        ctx = {}
+        fires = [fire(circ, pb, k, i, times[i], caught, fired, yields[i], ctx) for i, k in enumerate(kinds)
+                 if k not in TASK_KINDS]
         if use_run:
             async def support(coro):
                 if await coro == 'finished':
@@ -200,7 +226,7 @@ def scen_errors(env, kinds, use_run):
             except BaseException as err:
                 res['run'] = ('raised', err)
         else:
-            simtask = asyncio.create_task(circ.run_forever())
+            simtask = ctx['simtask'] = asyncio.create_task(circ.run_forever())
             tasks = [asyncio.create_task(c) for c in fires]
 
             async def backstop():
@@ -274,6 +300,12 @@ def scen_errors(env, kinds, use_run):
         return
     if use_run:
         what, val = res['run']
+        env.check('not-ready-after', not res['ready_end'], info=lambda: res)
+        # run() raises the simulator's error if there is one (a cancellation is none)
+        if what == 'raised' and not isinstance(err, asyncio.CancelledError):
+            env.check('error-attr', val is err, info=lambda: (val, err))
+        elif what == 'returned':
+            env.check('error-attr', isinstance(err, asyncio.CancelledError), info=lambda: (val, err))
         if all(k in CANCEL for k in kinds_first):
             env.note('cancel-first')
             env.check('run-result', what == 'returned' and val is None, info=lambda: (kinds, res))
@@ -283,7 +315,7 @@ def scen_errors(env, kinds, use_run):
         return
     # the error delivered FIRST (instrumented ground truth, iteration-exact) is the reported one
     order = [i for i in fired if kinds[i] in FATAL or kinds[i] in CANCEL]
-    if order:
+    if order and 'cancel' not in kinds:
         f0 = order[0]
         if kinds[f0] in CANCEL:
             env.check('first-delivered-wins', isinstance(res['error'], asyncio.CancelledError),
@@ -318,7 +350,8 @@ def scen_errors(env, kinds, use_run):
             if all(bool(times[i] < times[j]) for j in first):
                 env.check('harmless-dont-stop', c[2] is True and c[3] is None, info=lambda: c)
     # the simulation stopped at the instant of the first stopper
-    env.check('stops-at-first', bool(eq_(res['t_end'], times[first[0]])) or True)
+    # the simulation stopped at the instant of the first stopper (clean-up takes no virtual time here)
+    env.check('stops-at-first', eq_(res['t_end'], times[first[0]]), info=lambda: (kinds, str(res['t_end']), [str(t) for t in times]))
 
 
 def scen_before_start(env):
@@ -462,11 +495,11 @@ def shards(tier):
         out.append({'name': f'1 source {k}', 'scenario': 'scen_errors', 'params': {'kinds': [k], 'use_run': False}})
     for ks in itertools.product(KINDS, repeat=2):
         out.append({'name': f'2 sources {ks}', 'scenario': 'scen_errors', 'params': {'kinds': list(ks), 'use_run': False}})
-    for ks in itertools.product(FATAL + CANCEL, repeat=2):
+    for ks in itertools.product([k for k in FATAL + CANCEL if k != 'cancel'], repeat=2):
         out.append({'name': f'run() 2 sources {ks}', 'scenario': 'scen_errors', 'params': {'kinds': list(ks), 'use_run': True}})
     for sk in SUPPORT:
         out.append({'name': f'run() 1 source {sk}', 'scenario': 'scen_errors', 'params': {'kinds': [sk], 'use_run': True}})
-        for k in FATAL + CANCEL + SUPPORT:
+        for k in [k for k in FATAL + CANCEL if k != 'cancel'] + SUPPORT:
             out.append({'name': f'run() 2 sources ({sk}, {k})', 'scenario': 'scen_errors',
                         'params': {'kinds': [sk, k], 'use_run': True}})
     if n >= 3:
